@@ -1409,17 +1409,27 @@ def check_fit(case, rec):
     guess = {"len_scale": ls * case["start"][0], "var": case["var"] * case["start"][1]}
     # optimiser accuracy is C10's subject: ask scipy for tight termination so
     # that what remains is the geometry (chord vs arc differ by per cents here)
-    para, _pcov = lib(
+    para, _pcov, r2_lib = lib(
         model.fit_variogram,
         x.copy(),
         y.copy(),
         init_guess=guess,
         curve_fit_kwargs={"ftol": 1e-13, "xtol": 1e-13, "gtol": 1e-13},
+        return_r2=True,
         _what="fit_variogram",
         _tags=tags,
         **kw,
     )
     sill = case["var"] + nug
+    # the reported score belongs to the same geometry: residuals of the fitted Yadrenko variogram at the great-circle lags
+    fit_o = lib(cls, dim=3, var=model.var, len_scale=model.len_scale, nugget=model.nugget, _what="reference model", _tags=tags, **case["opt"])
+    res_o = y - fit_o.variogram(g * geo.chord_from_arc(arc))
+    ss_tot = float(np.sum((y - np.mean(y)) ** 2))
+    if ss_tot > 0:
+        r2_o = 1.0 - float(np.sum(res_o**2)) / ss_tot
+        rec.discrepancy("fit_r2", abs(float(r2_lib) - r2_o), 1e-9)
+        require(abs(float(r2_lib) - r2_o) <= 1e-9, f"lat-lon fit (geo_scale={g}): returned r2 = {float(r2_lib)!r}, residuals of the fitted Yadrenko "
+                f"variogram at the great-circle lags give {r2_o!r}", dict(tags, kind="fit_r2"))
     # fitted model, evaluated by the oracle geometry on a plain model
     fitted = lib(
         cls, dim=3, var=model.var, len_scale=model.len_scale, nugget=model.nugget, _what="reference model", _tags=tags, **case["opt"]
